@@ -106,7 +106,7 @@ def rules_c02(ctx):
     S = p_search
     return (S.rule_cap(ctx, 'pgm', ctx.units, fnames=('search', 'segment_for_key')) + [o for o in S.rule_range_form(ctx, 'pgm', ctx.units)] +
             p_segmentation.rule_closing(ctx) + [o for o in p_segmentation.rule_rank_agree(ctx) if o.rule == 'GAP-GUARD' or o.arm in ('gap', 'closing')] +
-            p_segmentation.rule_key_arith(ctx) + [o for o in p_segmentation.rule_omp_order(ctx) if o.arm == 'last-chunk'])
+            p_segmentation.rule_key_arith(ctx) + [o for o in p_segmentation.rule_omp_order(ctx) if o.arm == 'last-chunk'] + p_segmentation.rule_seam(ctx))
 
 
 def rules_c07(ctx):
@@ -297,6 +297,7 @@ PROPS['C06'] = {
         'LOOP-AGREE: the four level loops (find, range, lower_bound, Iterator::lazy_initialize) have the same bounds, direction, emptiness skip and index-narrowing idiom',
         'KIND: lazy_initialize positions every cursor at FIRST_GT(current key); range slices [FIRST_GE(lo), FIRST_GT(hi))',
         'DERIVED: size(), empty(), count(), begin() call only begin/end/lower_bound/find and read no container state directly',
+        'NARROW-SCOPE: bounds derived from pgm(i).search(k) (the epsilon window) are used only as arguments of a binary search, never to bound the forward scan of lower_bound()/range()/the iterator',
     ],
     'not_decided': _DYN_ND,
     'explanation': 'Clause-level static claim for C06.',
